@@ -22,9 +22,12 @@ from common import Ctx, driver_json
 PROPERTY = "C01"
 LEAN_MODULES = ["Proofs.C01.Deribit"]
 DRIVERS = ["driver_deribit"]
-RULE = ("[deribit] (a) buckets = (bar open/closed, cache fresh/stale-cash/none, number of positions, positions with/without a row in the book); "
-        "(b) buckets = (interval, bar kind on-hour/off-hour/hour-missing, what happened since the last open bar: nothing / deposit / withdraw / trade / "
-        "settlement, start of the run on or off the hour)")
+RULE = ("[deribit] (a) buckets = (bar open/closed, what happened since the cached valuation: nothing / deposit / withdraw / a trade on the open bar / "
+        "update() with due options / no valuation yet, number of positions, positions with/without a row in the book); "
+        "(b) whole runs at 1min / 5min / 1h / 2h / 4h with calls from before_bar / on_bar / after_bar / notify: buckets = (interval, bar kind on-hour/"
+        "off-hour/hour-missing, what happened since the last open bar: nothing / deposit / withdraw / trade / settlement / a trade or cash movement "
+        "made from notify after the previous row) for the account rows and, for every get_market_balance() the strategy itself reads, "
+        "(hook, settling bar or not)")
 TRUSTED = ["pandas/Actuator plumbing exercised, not modelled; the independent valuation reads the same data frames the Actuator iterates"]
 ASSUMPTIONS = ["a position whose instrument has no row in the bar's book has no mark in that bar's data; the code values it at 0 and so does the oracle "
                "(counted in notes as positions_without_mark)"]
@@ -63,9 +66,15 @@ def gen_state(rng):
             positions.append({"name": i["name"], "expiry": i["expiry"], "strike": i["strike"], "kind": i["kind"], "amount": str(a)})
     if rng.random() < 0.3:
         positions.append({"name": token + "-GONE-1234-C", "expiry": hour + 600, "strike": 1234, "kind": "CALL", "amount": str(rng.randint(1, 9))})
-    cache_cls = rng.choice(("fresh", "stale-deposit", "stale-withdraw", "none")) if not is_open else rng.choice(("fresh", "none"))
+    # what happened between the valuation that may be cached and the read that is checked:
+    #   closed bars: nothing / deposit / withdraw on the closed bar / a trade on the hour's open bar AFTER the valuation (Strategy.notify, a
+    #   second strategy call) / no valuation yet (update() after the last valuation of an open bar cannot happen in the bar loop: the
+    #   account row is taken after update());   open bars: nothing / none / a trade / update() (expiry) / deposit after an earlier read
+    cache_cls = rng.choice(("fresh", "stale-deposit", "stale-withdraw", "none", "stale-trade", "stale-trade")) if not is_open \
+        else rng.choice(("fresh", "none", "read-trade", "read-update", "read-update", "read-deposit"))
     return {"token": token, "open": is_open, "hour": hour, "minute": hour if is_open else hour + rng.randint(1, 59), "instrs": instrs,
             "positions": positions, "cash": str(Decimal(rng.randint(0, 100000)) / 1000), "wallet": "7", "cache": cache_cls,
+            "trade_side": rng.choice(("buy", "sell")),
             "move": str(Decimal(rng.randint(1, 3000)) / 1000)}
 
 
@@ -74,9 +83,27 @@ def run_state(ctx, st, reqs):
     m = rig.market
     if st["cache"] != "none":
         m.get_market_balance()                 # valuation of the hour, cached
+    if st["cache"] in ("stale-trade", "read-trade"):
+        # a trade on the open bar after the valuation was taken
+        m.balance += Decimal(50)
+        done = False
+        for side in (("sell", "buy") if st.get("trade_side") == "sell" else ("buy", "sell")):
+            for i in st["instrs"]:
+                out, _ = L.apply_op(rig, {"type": side, "name": i["name"], "amount": 1 if st["token"] == "ETH" else Decimal("0.1")})
+                if out == "ok":
+                    done = True
+                    break
+            if done:
+                break
+        if not done:
+            ctx.count("stale_trade_without_trade")
+    elif st["cache"] in ("stale-update", "read-update"):
+        L.apply_op(rig, {"type": "update"})     # options that are due are exercised / expire after the valuation was taken
+    elif st["cache"] == "read-deposit":
+        L.apply_op(rig, {"type": "deposit", "amount": Decimal(st["move"])})
     if not st["open"]:
         from demeter.deribit import DeribitMarketStatus
-        m.set_market_status(DeribitMarketStatus(timestamp=L.ts_of(st["minute"]), data=m.market_status.data), price=m._price_status)
+        m.set_market_status(DeribitMarketStatus(timestamp=L.ts_of(st["minute"]), data=m.market_status.data), price=L.market_prices(m))
         m.is_open = False
     if st["cache"] == "stale-deposit":
         L.apply_op(rig, {"type": "deposit", "amount": Decimal(st["move"])})
@@ -106,18 +133,41 @@ def run_state(ctx, st, reqs):
 
 
 # ------------------------------------------------------------------------------------------ (b) whole runs
+PHASES = (("on", 0.4), ("before", 0.2), ("after", 0.25), ("notify", 0.15))
+
+
 def gen_run(rng):
     sc = c16.gen_scenario(rng)
-    # more cash movements between the hours, fewer trades
+    step = c16.INTERVAL_MIN[sc["interval"]]
     last = 60 * sc["n_hours"] - 1 if sc["interval"] == "1min" else 60 * (sc["n_hours"] - 1)
+    # more cash movements between the hours, from every hook of the strategy
     for _ in range(rng.randint(2, 6)):
         m = rng.randint(0, last)
-        if sc["interval"] == "5min":
-            m -= m % 5
-        elif sc["interval"] == "1h":
-            m -= m % 60
+        m -= m % step
         op = {"type": rng.choice(("deposit", "withdraw")), "amount": Decimal(rng.randint(1, 200)) / 100}
-        sc["script"].setdefault(m, []).append(op)
+        c16.add_scripted(rng, sc["script"], m, op, PHASES)
+    # trades on hourly bars after the bar's account row (Strategy.notify) and after update() (after_bar)
+    for _ in range(rng.randint(1, 3)):
+        m = 60 * rng.randint(0, sc["n_hours"] - 1)
+        m -= m % step
+        ins = rng.choice(sc["instrs"])
+        op = {"type": rng.choice(("buy", "buy", "sell")), "name": ins["name"], "amount": rng.randint(1, 4)}
+        c16.add_scripted(rng, sc["script"], m, op, (("notify", 0.6), ("after", 0.4)))
+    # the strategy reads the market balance at every point of the bar: before_bar, on_bar (before update()), after_bar, notify --
+    # on the bars where options expire, where it trades, and on the minutes in between
+    expiry_bars = set()
+    for ins in sc["instrs"]:
+        e = ins["expiry"]
+        grid = max(60, step)
+        expiry_bars.add(max(0, -(-e // grid) * grid))
+    busy = [m for m in sorted(set(sc["script"]) | expiry_bars) if 0 <= m <= last]
+    for m in busy:
+        for _ in range(rng.randint(1, 3)):
+            c16.add_scripted(rng, sc["script"], m, {"type": "balance"}, (("on", 0.35), ("before", 0.3), ("after", 0.2), ("notify", 0.15)))
+    for _ in range(rng.randint(1, 4)):
+        m = rng.randint(0, last)
+        m -= m % step
+        c16.add_scripted(rng, sc["script"], m, {"type": "balance"}, PHASES)
     return sc
 
 
@@ -127,19 +177,43 @@ def oracle_run(ctx, sc, a, rec, balances, prices, mkey, rep):
         now = bar["now"]
         on_grid = now % 60 == 0
         kind = "off-hour" if not on_grid else ("on-hour" if c16.hour_present(sc, now) else "hour-missing")
-        for o in bar["ops"]:
-            if o["out"] == "ok":
+        settled = len(bar["post"]["positions"]) != len(bar["pre"]["positions"])
+        # every valuation the strategy itself reads, wherever in the bar: cash + Σ amount × round(mark) of the raw state at that moment
+        for j, o in enumerate(bar["ops"]):
+            if o["op"]["type"] == "balance":
+                ctx.case(f"deribit:read:{sc['interval']}:{kind}:{o['phase']}:{'settling-bar' if settled else 'plain'}:{since}")
+                if o["out"] != "ok" or o["res"] is None:
+                    ctx.violate(f"deribit.read.{o['phase']}.raises", f"minute {now} ({o['phase']}): get_market_balance -> {o['out']}", dict(rep, bar=i))
+                    continue
+                if L.has_nan(o["res"]) or L.has_nan(o["before"]["book"]):
+                    ctx.violate(f"deribit.read.{kind}.value-nan", f"minute {now} ({o['phase']}): the reported option-market value is NaN "
+                                f"(the bar's book has rows without data)", dict(rep, bar=i))
+                    continue
+                w, pr, _ = spec_value(o["before"])
+                if o["res"]["cash"] != o["before"]["cash"] or abs(o["res"]["netValue"] - w) > TOL * max(abs(w), 1):
+                    ctx.violate(f"deribit.read.{kind}.{o['phase']}.after-{since}{'.settling-bar' if settled and o['phase'] in ('after', 'notify') else ''}",
+                                f"minute {now} ({kind}), get_market_balance() read in {o['phase']} (since last open bar: {since}): reports "
+                                f"{L.fmt(o['res']['netValue'])} (cash {L.fmt(o['res']['cash'])}) but cash {L.fmt(o['before']['cash'])} + options at mark "
+                                f"{L.fmt(pr)} = {L.fmt(w)}", dict(rep, bar=i, op=j))
+            elif o["out"] == "ok" and o["phase"] != "notify":
                 since = o["op"]["type"] if o["op"]["type"] in ("deposit", "withdraw") else "trade"
-        post = bar["post"]
-        want, prem, missing = spec_value(post)
-        if missing:
-            ctx.count("positions_without_mark", missing)
+        if settled:
+            since = "settlement"
+        post = bar["row_state"]                # the state the bar's account row is about: after after_bar, before notify
         bal = balances[i]
         st = a.account_status[i]
         ctx.case(f"deribit:run:{sc['interval']}:{kind}:{since}")
         if bal is None:
             ctx.violate("deribit.run.balance-none", f"minute {now}: no market balance in the account status", dict(rep, bar=i))
             continue
+        if L.has_nan(bal) or L.has_nan(post["book"]):
+            ctx.violate(f"deribit.run.{kind}.value-nan", f"minute {now} ({kind}): the reported option-market value is "
+                        f"{bal['netValue'] if isinstance(bal['netValue'], str) else L.fmt(bal['netValue'])}: the bar's book has rows without data (NaN)",
+                        dict(rep, bar=i))
+            continue
+        want, prem, missing = spec_value(post)
+        if missing:
+            ctx.count("positions_without_mark", missing)
         if bal["cash"] != post["cash"] or abs(bal["netValue"] - want) > TOL * max(abs(want), 1):
             ctx.violate(f"deribit.run.{kind}.after-{since}",
                         f"minute {now} ({kind}, since last open bar: {since}): reported option-market value {L.fmt(bal['netValue'])} "
@@ -154,6 +228,10 @@ def oracle_run(ctx, sc, a, rec, balances, prices, mkey, rep):
                         dict(rep, bar=i))
         if on_grid:
             since = "nothing"
+        # what was done from notify comes after this bar's row: it shows in the rows that follow
+        for o in bar["ops"]:
+            if o["phase"] == "notify" and o["out"] == "ok" and o["op"]["type"] != "balance":
+                since = "notify-" + (o["op"]["type"] if o["op"]["type"] in ("deposit", "withdraw") else "trade")
 
 
 def run_one(ctx, sc, reqs):
